@@ -493,17 +493,28 @@ def function_level(ck, orders):
                          {"kind": "function", "what": "freqs", "args": [o, v]}, found_input=False)
 
 
-def sampled_stream(ck, orders):
+def sampled_stream(ck, orders, chunk=10 ** 7):
     rng = ck.rng
     ck.stream("sampled", "cirq with n_shots in {1, 17, 200}: support inside the exact support, frequencies are counts/n_shots summing to one, "
               "deterministic (classical reversible) circuits give one key; sympy with n_shots: support and normalisation only "
               "(the backend ignores n_shots); non-trivial = exact distribution has at least two outcomes")
     n_rand = 50 if ck.tier == "quick" else 600
-    for i in range(n_rand + 2):
+    # n_shots at and around exact multiples of the sampling chunk of _statevector_to_frequencies (chunk read from the source),
+    # on 1-2 qubit circuits: (n_shots, gate-less?)
+    big = [(chunk, False), (2 * chunk, False)] + ([(chunk, True), (chunk + 1, False), (chunk - 1, False), (3 * chunk, False)] if ck.tier == "thorough" else [])
+    big = [(b, g) for b, g in big if 0 < b <= 4 * 10 ** 7]          # (a much larger constant would make these cases too slow: skipped, see notes)
+    ck.notes["sampling_chunk_cases"] = [b for b, _ in big]
+    for i in range(n_rand + 2 + len(big)):
         backend = "cirq" if i % 10 else "sympy"
         case = gen_case(rng, backend, ck.tier)
         det = rng.random() < 0.3
-        if i >= n_rand:
+        forced_shots = None
+        if i >= n_rand + 2:
+            forced_shots, gateless = big[i - n_rand - 2]
+            backend, det = "cirq", False
+            case = {"backend": "cirq", "n": 2, "n_arg": 2, "prefix": dense_prefix([0]) if gateless else [], "isv": gateless,
+                    "gates": [] if gateless else [{"name": "RY", "target": [0], "control": None, "k": 3}, {"name": "CNOT", "target": [1], "control": [0], "k": None}]}
+        elif i >= n_rand:
             # fixed cases, one per backend: a circuit WITHOUT gates and a supplied initial state (identity path of Backend.simulate)
             backend = ["cirq", "sympy"][i - n_rand]
             case = {"backend": backend, "n": 2, "n_arg": 2, "prefix": dense_prefix([0, 1]), "gates": [], "isv": True}
@@ -516,7 +527,7 @@ def sampled_stream(ck, orders):
             case["isv"] = True
             case["n_arg"] = k
         n = case["n"]
-        n_shots = rng.choice([1, 17, 200])
+        n_shots = rng.choice([1, 17, 200]) if forced_shots is None else forced_shots
         psi0, ref = ref_states(case)
         probs = np.abs(ref) ** 2
         seed = rng.randrange(1 << 30)
@@ -540,7 +551,13 @@ def sampled_stream(ck, orders):
         bad = sampled_issues(f, probs, n, n_shots if backend == "cirq" else None)
         ck.case("sampled", json.dumps([case, n_shots], sort_keys=True), nontrivial=int(np.sum(probs > 1e-9)) >= 2,
                 sample={"n_shots": n_shots, "gates": case["gates"][:4], "frequencies": f},
-                tags=[backend, "n_shots=%d" % n_shots, "deterministic" if det else "random"] + ([] if case["gates"] else ["gate-less"]))
+                tags=[backend, "n_shots=%d" % n_shots, "deterministic" if det else "random"] + ([] if case["gates"] else ["gate-less"])
+                + (["n_shots-multiple-of-chunk"] if n_shots % chunk == 0 else []))
+        if bad and n_shots >= chunk:
+            cls = "n_shots-multiple-of-sampling-chunk" if n_shots % chunk == 0 else "n_shots-above-sampling-chunk"
+            ck.violation("C01/%s/sampled/invariant/%s" % (backend, cls), "simulate with n_shots=%d (sampling chunk %d): %s; frequencies %s; circuit %s"
+                         % (n_shots, chunk, "; ".join(bad[:3]), f, json.dumps(case["gates"])[:200]), replay)
+            continue
         if bad:
             if backend == "sympy":
                 if probs_asis is not None and not sampled_issues(f, probs_asis, n, None):
@@ -748,6 +765,65 @@ def gaps_stream(ck, orders):
 
 
 
+def special_angles_stream(ck, orders):
+    """Angles at which a translator may substitute a named gate for a rotation (multiples of pi/4, both signs), on both backends,
+    with the qubit in superposition before and an RX(pi/2) after so that the SIGN of the angle shows in the frequencies; the gates
+    Gate.inverse() produces for S and T; circuit followed by Circuit.inverse().  Implementation vs np_sim."""
+    from tangelo.linq import Gate, Circuit
+    rng = ck.rng
+    ck.stream("special-angles", "H, G(k*pi/8), RX(pi/2) for G in PHASE RX RY RZ (k = +-2, +-4, +-6, +-8, +-12, +-14, +-16, 24, -24, +-32) and their controlled forms "
+              "(k = +-2, +-4, +-8, -12, 14) on qubit 0 of 1 / qubit 1 of 2, both backends; H S / H T followed by Gate.inverse() of S / T; random Clifford+T+rotation "
+              "circuits followed by Circuit.inverse() (must return the initial state); np_sim oracle")
+    H = lambda q: {"name": "H", "target": [q], "control": None, "k": None}          # noqa
+    RXh = lambda q: {"name": "RX", "target": [q], "control": None, "k": 4}          # noqa
+    ks1 = [2, -2, 4, -4, 6, -6, 8, -8, 12, -12, 14, -14, 16, -16, 24, -24, 32, -32]
+    ks2 = [2, -2, 4, -4, 8, -8, -12, 14]
+    for backend in ("sympy", "cirq"):
+        for name in LC.ONE_Q_ROT:
+            for j, k in enumerate(ks1):
+                if j % 2 == 0:
+                    case = {"backend": backend, "n": 1, "n_arg": 1, "prefix": [], "isv": False,
+                            "gates": [H(0), {"name": name, "target": [0], "control": None, "k": k}, RXh(0)]}
+                else:
+                    case = {"backend": backend, "n": 2, "n_arg": None, "prefix": [], "isv": False,
+                            "gates": [H(1), {"name": name, "target": [1], "control": None, "k": k}, RXh(1), {"name": "CNOT", "target": [0], "control": [1], "k": None}]}
+                _judge(ck, "special-angles", case, orders[backend], [backend, name, "k=%d" % k])
+        for name in LC.CTRL_ROT:
+            for j, k in enumerate(ks2):
+                c, t = (0, 1) if j % 2 else (1, 0)
+                case = {"backend": backend, "n": 2, "n_arg": 2, "prefix": [], "isv": False,
+                        "gates": [H(0), H(1), {"name": name, "target": [t], "control": [c], "k": k}, RXh(t), RXh(c)]}
+                _judge(ck, "special-angles", case, orders[backend], [backend, name, "k=%d" % k])
+        # what Gate.inverse() produces for S and T (taken from the real objects), after the gate itself and alone
+        for nm in ("S", "T"):
+            try:
+                inv = Gate(nm, 0).inverse()
+                spec = {"name": inv.name, "target": list(inv.target), "control": None, "k": None, "p": float(inv.parameter)}
+            except Exception as e:      # noqa
+                ck.violation("C01/Gate.inverse/%s/raises" % nm, "Gate(%r, 0).inverse() raised %r" % (nm, e), {"kind": "inverse", "name": nm})
+                continue
+            for gates in ([H(0), {"name": nm, "target": [0], "control": None, "k": None}, spec, H(0)], [H(0), spec, RXh(0)]):
+                case = {"backend": backend, "n": 1, "n_arg": 1, "prefix": [], "isv": False, "gates": gates}
+                _judge(ck, "special-angles", case, orders[backend], [backend, nm + "-inverse"])
+        # circuit + circuit.inverse() = identity on a superposed state
+        names = ["H", "S", "T", "X", "Z", "RX", "RZ", "PHASE", "CNOT", "CZ", "CPHASE", "CRY"]
+        for _ in range(4 if backend == "sympy" else 12):
+            k = rng.choice([1, 2, 2])
+            fwd = LC.rand_gate_list(rng, k, rng.randint(2, 4), names, max_controls=1, var_p=0.0, edge_p=0.6, echo_p=0.0)
+            fwd = [{"name": "H", "target": [q], "control": None, "k": None, "var": False} for q in range(k)] + fwd
+            try:
+                c = Circuit([LC.make_gate(sp) for sp in fwd], n_qubits=k)
+                inv = c.inverse()
+                back = [{"name": g.name, "target": list(g.target), "control": None if g.control is None else list(g.control), "k": None,
+                         "p": None if isinstance(g.parameter, str) else float(g.parameter)} for g in inv._gates]
+            except Exception as e:      # noqa
+                ck.violation("C01/Circuit.inverse/raises", "Circuit.inverse() raised %r on %s" % (e, json.dumps(fwd)[:300]), {"kind": "inverse", "gates": fwd})
+                continue
+            case = {"backend": backend, "n": k, "n_arg": k, "prefix": [], "isv": False, "gates": embed(fwd, {q: q for q in range(k)}) + back}
+            _judge(ck, "special-angles", case, orders[backend], [backend, "circuit+inverse"])
+
+
+
 def float_stream(ck, orders):
     rng = ck.rng
     ck.stream("float-angles", "random circuits with uniform real angles in [-14, 14] (beyond +-4*pi) against np_sim (tolerance 1e-8), cirq and a few sympy; "
@@ -949,7 +1025,10 @@ def run(ck):
     guarded("exact", do_exact)
     guarded("placements", placements_stream, ck, orders)
     guarded("index-gaps", gaps_stream, ck, orders)
-    guarded("sampled", sampled_stream, ck, orders)
+    chunk = (tables.get("sampling") or {}).get("chunk_size") or 10 ** 7
+    ck.notes["sampling_chunk"] = {"chunk_size": chunk, "loop_as_modelled": (tables.get("sampling") or {}).get("as_modelled")}
+    guarded("sampled", sampled_stream, ck, orders, chunk)
+    guarded("special-angles", special_angles_stream, ck, orders)
     guarded("malformed", malformed_stream, ck, tables, orders)
     guarded("float-angles", float_stream, ck, orders)
     if ck.tier == "thorough":
